@@ -28,11 +28,13 @@ class State:
         self.atom_of_term = {}  # T.id -> (coef, denmon) cache
         self.radicals = {}  # key -> (symT, radicandT)
         self.rad_by_name = {}  # var name -> (symT, radicandT)
+        self.sq_lemmas = []  # identifications that additionally use recorded squares (y*y == x)
         self.lemmas = []  # Bool T: identifications made by the normaliser
         self.facts = []  # Bool T: definitional side facts (radicals, quotient vars)
         self.nonzero = []  # T terms assumed non-zero (denominators)
         self.domain = []  # Bool T: domain assumptions (radicands >= 0 ...)
         self.quot = {}
+        self.squares = {}  # T.id of a symbol s -> term r with the side fact s*s == r (radicals, orientation)
         self.fresh = 0
         self.used_lemmas = []
 
@@ -374,13 +376,53 @@ def sqrt_const(q: Fraction) -> Frac:
         r = (sym, tm.const(f))
         ST.radicals[key] = r
         ST.rad_by_name[sym.args[0]] = r
+        ST.squares[sym.id] = tm.const(f)
         ST.facts.append(tm.and_(tm.ge(sym, 0), tm.eq(tm.mul(sym, sym), tm.const(f))))
     return Frac(tm.mul(tm.const(coef), r[0]))
+
+
+def reduce_squares(poly):
+    """Rewrite s^e -> s^(e mod 2) * r^(e div 2) for every symbol s with a recorded side fact
+    s*s == r (sound by that fact).  Returns a Poly (or None if it grows too big)."""
+    if poly is None or not ST.squares:
+        return poly
+    try:
+        for _ in range(64):
+            hit = False
+            for vid, radt in ST.squares.items():
+                if poly.degree_in(vid) >= 2:
+                    rp = tm.to_poly(radt)
+                    if rp is None:
+                        return None
+                    new = tm.Poly()
+                    for m, c in poly.d.items():
+                        e = dict(m).get(vid, 0)
+                        if e >= 2:
+                            rest = tuple((v, k) for v, k in m if v != vid)
+                            if e % 2:
+                                rest = tm._mono_mul(rest, ((vid, 1),))
+                            new = new + (tm.Poly({rest: c}) * (rp ** (e // 2)))
+                        else:
+                            new = new + tm.Poly({m: c})
+                    poly = new
+                    hit = True
+            if not hit:
+                break
+    except tm.PolyTooBig:
+        return None
+    return poly
 
 
 def sqrt_term(p: T) -> Frac:
     """sqrt of a polynomial term, as coefficient * radical symbol."""
     poly = tm.to_poly(p)
+    if poly is not None and ST.squares:
+        red = reduce_squares(poly)
+        if red is not None and red.key() != poly.key():
+            # radicand rewritten with recorded squares (y*y == x): p == reduced under those facts
+            p2 = tm.poly_to_term(red)
+            ST.sq_lemmas.append(tm.eq(p, p2))
+            poly, p = red, p2
     if poly is None:
         key = ("id", p.id)
         coef = Fraction(1)
@@ -403,6 +445,7 @@ def sqrt_term(p: T) -> Frac:
         r = (sym, rad_t)
         ST.radicals[key] = r
         ST.rad_by_name[sym.args[0]] = r
+        ST.squares[sym.id] = rad_t
         ST.facts.append(tm.and_(tm.ge(sym, 0), tm.eq(tm.mul(sym, sym), rad_t)))
         ST.domain.append(tm.ge(rad_t, 0))
     if poly is not None:
@@ -704,7 +747,8 @@ def apply_fn(name, x):
         return Dual(apply_fn(name, x.a), DERIV[name](x.a) * x.b)
     if isinstance(x, Cx):
         cr, ci = x.re.const_value(), x.im.const_value()
-        if ci == 0 and name in REAL_ON_REALS:
+        if ci == 0 and (name in REAL_ON_REALS or name == "sqrt"):
+            # real argument; for sqrt the radicand is assumed in domain (>= 0, recorded as a domain fact)
             return Cx(apply_fn(name, x.re))
         ar, ai = frac_arg(x.re), frac_arg(x.im)
         return Cx(Frac(tm.uf("uf_re_" + name, ar, ai)), Frac(tm.uf("uf_im_" + name, ar, ai)))
